@@ -443,11 +443,24 @@ fn edited_view_case(g: &mut Gen, ctx: &mut Ctx) -> CaseResult {
     };
     let w = m.protected.wire.clone().unwrap_or_default();
     let aad = g.small_bytes();
-    let how = g.below(4);
+    let how = g.below(7);
     let edit = |h: &mut Header, g: &mut Gen| match how {
         0 => h.alg = Some(coset::Algorithm::Assigned(coset::iana::Algorithm::ES256)),
         1 => h.key_id = g.nonempty_bytes(),
         2 => h.rest.push((coset::Label::Int(70000), coset::cbor::value::Value::Null)),
+        // views that could not even be encoded (nobody has to: the received bytes stand for the header)
+        4 => {
+            h.rest.push((coset::Label::Int(70001), coset::cbor::value::Value::Null));
+            h.rest.push((coset::Label::Int(70001), coset::cbor::value::Value::Bool(true)));
+        }
+        5 => {
+            h.alg = Some(coset::Algorithm::Assigned(coset::iana::Algorithm::ES256));
+            h.rest.push((coset::Label::Int(1), coset::cbor::value::Value::from(-7)));
+        }
+        6 => {
+            let bad = Header { rest: vec![(coset::Label::Text("x".into()), coset::cbor::value::Value::Null), (coset::Label::Text("x".into()), coset::cbor::value::Value::Null)], ..Default::default() };
+            h.counter_signatures.push(CoseSignature { protected: ProtectedHeader { original_data: None, header: bad }, unprotected: Header::default(), signature: vec![1] });
+        }
         _ => *h = Header::default(),
     };
     ctx.classf(format!("edited-view:{}:{}", kind.name(), if w.is_empty() { "zero-length-retained" } else { "retained" }));
